@@ -21,7 +21,7 @@
 From Coq Require Import List Arith Bool.
 From PM Require Import Model.Data Model.Mark Model.Tree Model.Resolve Model.Step Spec.Tokens
   Proofs.ReplaceValid Proofs.TokenBasics Proofs.ReplaceTokens Proofs.SliceShape Proofs.TokenLaws
-  Proofs.NodeSteps Proofs.MarkSteps Proofs.MarkPointwise.
+  Proofs.NodeSteps Proofs.MarkSteps Proofs.MarkPointwise Proofs.Retype.
 Import ListNotations.
 Local Open Scope nat_scope.
 
@@ -64,3 +64,16 @@ Theorem C13_remarked_reading : forall s u doc from to i t,
     Some (if (from <=? i) && (i <? to) then ftok s u (snd (ctx_at s doc i)) t else t).
 Proof. exact remarked_nth. Qed.
 Print Assumptions C13_remarked_reading.
+
+(* Changing block type or node markup keeps the children: the step set_node_markup / set_block_type record for a node
+   spanning tokens from .. to-1 (a replace-around step whose gap is the node's whole content, whose slice is one empty
+   node of the new type, insert = 1) puts the new type's open token in place of the old one and keeps EVERY other
+   token: everything before the node, all its children, its close token, everything after it.  (Whether the new type
+   can hold the children is decided by Node.replace: the step fails otherwise - C01.) *)
+Theorem C13_retype_keeps_children : forall s from to ty a m structure doc d',
+  check s doc = true -> is_leaf_ty s ty = false -> from + 2 <= to ->
+  apply s (SReplaceAround from to (from + 1) (to - 1) (SL [Elem ty a m []] 0 0) 1 structure) doc = ROk d' ->
+  DT s d' = firstn from (DT s doc) ++ [tnorm (TOpen ty a m)] ++ seg (DT s doc) (from + 1) (to - 1)
+            ++ [TClose] ++ skipn to (DT s doc).
+Proof. exact retype_step_keeps_children. Qed.
+Print Assumptions C13_retype_keeps_children.
